@@ -1,4 +1,5 @@
 import Lemmas.Gen.Value
+import Lemmas.Gen.Incremental
 import Spec.Gen
 /-!
 # C17 — a generated revision file reloads as the revision that was requested
@@ -130,6 +131,51 @@ theorem incremental_counterexample : ¬ incremental_statement := by
 example : (match load f5History with | .ok m => acceptedB m f5Revision | _ => false) = true := by decide +kernel
 example : (match (load f5History).bind (fun m => addRevision m f5Revision), load (f5History ++ [f5Revision]) with
     | .ok a, .ok b => decide ((view a).noLabels = (view b).noLabels) | _, _ => false) = true := by decide +kernel
+
+/-- **Incremental map = reloaded map, except for the `branch_labels` sets** (partial: F5).
+    For EVERY history `h` that loads, every revision `r` accepted by `generate_revision` (new id,
+    dependencies that resolve in the map; nothing is assumed about heads/splice, labels or the
+    shape of the graph) such that the extended history loads: `add_revision` succeeds and the
+    views of the two maps - ids in map order, down revisions, resolved and normalised
+    dependencies, children (`nextrev`, `_all_nextrev`), branch-label keys, heads, real heads,
+    bases, real bases - coincide; only the per-revision `branch_labels` sets are left out. -/
+theorem incremental_partial (h : Hist) (r : Rev) (m mf : LMap) (hl : load h = .ok m)
+    (hf : load (h ++ [r]) = .ok mf) (ha : Accepted m r) :
+    ∃ m', addRevision m r = .ok m' ∧ (view m').noLabels = (view mf).noLabels := by
+  unfold Accepted acceptedB at ha
+  simp only [Bool.and_eq_true, Bool.not_eq_true', List.all_eq_true] at ha
+  obtain ⟨⟨⟨⟨⟨hid, _⟩, _⟩, hdeps⟩, _⟩, _⟩ := ha
+  obtain ⟨h1, h2⟩ := Lemmas.Gen.incremental_noLabels h r m mf hl hf hid hdeps
+  exact ⟨_, h1, h2⟩
+
+/-- **Histories without branch labels: the incremental map IS the reloaded map** (full view,
+    labels included) - the other way of stating what F5 leaves intact. -/
+theorem incremental_partial_unlabelled (h : Hist) (r : Rev) (m mf : LMap) (hl : load h = .ok m)
+    (hf : load (h ++ [r]) = .ok mf) (ha : Accepted m r) (hn : ∀ x ∈ h, x.labels = []) (hr : r.labels = []) :
+    ∃ m', addRevision m r = .ok m' ∧ view m' = view mf := by
+  unfold Accepted acceptedB at ha
+  simp only [Bool.and_eq_true, Bool.not_eq_true', List.all_eq_true] at ha
+  obtain ⟨⟨⟨⟨⟨hid, _⟩, _⟩, hdeps⟩, _⟩, _⟩ := ha
+  obtain ⟨h1, h2⟩ := Lemmas.Gen.incremental_noLabels h r m mf hl hf hid hdeps
+  refine ⟨_, h1, ?_⟩
+  have hm := Lemmas.Gen.labels_nil_of_load h m hl hn
+  have hmf := Lemmas.Gen.labels_nil_of_load (h ++ [r]) mf hf (by
+    intro x hx
+    rcases List.mem_append.mp hx with hx | hx
+    · exact hn x hx
+    · simp at hx; subst hx; exact hr)
+  rw [← Lemmas.Gen.view_noLabels_self _ (Lemmas.Gen.addCore_labels_nil m r _ hm hr),
+      ← Lemmas.Gen.view_noLabels_self mf hmf]
+  exact h2
+
+/-- the hypotheses of `incremental_partial` are satisfiable (a merge of two heads with a dependency and a label) -/
+example :
+    let h : Hist := [{ id := "a", down := [], deps := [], labels := ["L"] }, { id := "b", down := ["a"], deps := [], labels := [] },
+                     { id := "c", down := ["a"], deps := [], labels := [] }, { id := "e", down := [], deps := [], labels := [] }]
+    let r : Rev := { id := "d", down := ["b", "c"], deps := ["e"], labels := ["M"] }
+    (match load h, load (h ++ [r]) with
+     | .ok m, .ok _ => acceptedB m r
+     | _, _ => false) = true := by decide +kernel
 
 /-! ## the docstring -/
 
